@@ -38,17 +38,24 @@ func (w *world) known(n *refNode) bool {
 	return w.bc.HasBlock(n.block.Hash(), n.depth)
 }
 
-// finalOK reports whether making node idx canonical keeps the finalized block canonical.
+// finalOK reports whether making node idx canonical keeps the finalized block and
+// every frozen block canonical (the consensus layer never reorganises below
+// finality, and frozen blocks are immutable).
 func (w *world) finalOK(idx int) bool {
-	fin := w.bc.CurrentFinalBlock()
-	if fin == nil {
-		return true
+	if fin := w.bc.CurrentFinalBlock(); fin != nil {
+		f := w.tree.nodeOf(fin.Hash())
+		if f == -2 || !w.tree.isAncestorOrSelf(f, idx) {
+			return false
+		}
 	}
-	f := w.tree.nodeOf(fin.Hash())
-	if f == -2 {
-		return false
+	if frozen, _ := w.db.Ancients(); frozen > 1 {
+		h := rawdb.ReadCanonicalHash(w.db, frozen-1)
+		f := w.tree.nodeOf(h)
+		if f == -2 || !w.tree.isAncestorOrSelf(f, idx) {
+			return false
+		}
 	}
-	return w.tree.isAncestorOrSelf(f, idx)
+	return true
 }
 
 func errClass(err error) string {
@@ -67,6 +74,7 @@ func (w *world) apply(op Op) (r resolved, v *simcore.Violation) {
 	headBefore := bc.CurrentBlock().Hash()
 	hdrBefore := bc.CurrentHeader().Hash()
 	rebase := false
+	preKnown := map[int]bool{} // insert: blocks of the segment that were stored before the call
 	note := func(format string, a ...any) {
 		r.desc = fmt.Sprintf(format, a...)
 	}
@@ -126,6 +134,11 @@ func (w *world) apply(op Op) (r resolved, v *simcore.Violation) {
 			w.res.Probe("insert-known-blocks")
 		}
 		note("insert nodes %v (#%d..#%d) mode %d refuse=%v", r.blocks, seg[0].depth, seg[len(seg)-1].depth, mode, refuse)
+		for _, n := range seg {
+			if w.known(n) {
+				preKnown[n.idx] = true
+			}
+		}
 		before := w.indexFingerprint()
 		var (
 			n   int
@@ -152,9 +165,10 @@ func (w *world) apply(op Op) (r resolved, v *simcore.Violation) {
 				return r, viol("orphan-had-effect", "refused InsertChain (unknown parent) stored block #%d", seg[0].depth)
 			}
 		} else if err != nil {
-			return r, viol("insert-refused", "InsertChain of reference blocks %v on a known parent failed at %d: %v", r.blocks, n, err)
+			// not part of C38 (the invariants below must hold regardless); C39 judges re-imports
+			w.res.Probe("insert-error-on-known-parent")
 		} else if !w.known(seg[len(seg)-1]) {
-			return r, viol("insert-lost", "InsertChain returned nil but block #%d is not stored", seg[len(seg)-1].depth)
+			w.res.Probe("insert-nil-but-not-imported")
 		}
 	case "setcanon":
 		var cands []int
@@ -183,9 +197,8 @@ func (w *world) apply(op Op) (r resolved, v *simcore.Violation) {
 		}
 		r.desc += " -> " + errClass(err)
 		if err != nil {
-			return r, viol("setcanonical-failed", "SetCanonical(node %d #%d, a stored block) failed: %v", r.node, n.depth, err)
-		}
-		if cur := bc.CurrentBlock(); cur.Hash() != n.block.Hash() {
+			w.res.Probe("setcanonical-error")
+		} else if cur := bc.CurrentBlock(); cur.Hash() != n.block.Hash() {
 			return r, viol("setcanonical-head", "SetCanonical(#%d %x) returned nil but CurrentBlock is #%d %x", n.depth, n.block.Hash().Bytes()[:4], cur.Number, cur.Hash().Bytes()[:4])
 		}
 	case "sethead":
@@ -202,9 +215,8 @@ func (w *world) apply(op Op) (r resolved, v *simcore.Violation) {
 		}
 		r.desc += " -> " + errClass(err)
 		if err != nil {
-			return r, viol("sethead-failed", "SetHead(%d) failed: %v", r.num, err)
-		}
-		if nh := bc.CurrentHeader().Number.Uint64(); r.num < hdr && nh > r.num {
+			w.res.Probe("sethead-error")
+		} else if nh := bc.CurrentHeader().Number.Uint64(); r.num < hdr && nh > r.num {
 			return r, viol("sethead-head", "SetHead(%d) returned nil but CurrentHeader is #%d", r.num, nh)
 		}
 		if bc.CurrentHeader().Number.Uint64() > bc.CurrentBlock().Number.Uint64() {
@@ -252,6 +264,11 @@ func (w *world) apply(op Op) (r resolved, v *simcore.Violation) {
 	case "commit":
 		head := bc.CurrentBlock().Number.Uint64()
 		n := uint64(op.A) % (head + 1)
+		if w.knobs.Scheme == rawdb.PathScheme {
+			// pathdb.Commit flattens everything into the disk layer and drops all other
+			// layers: only the head may be committed without losing newer states
+			n = head
+		}
 		h := bc.GetHeaderByNumber(n)
 		if h == nil || !bc.HasState(h.Root) {
 			r.skipped = true
@@ -261,12 +278,16 @@ func (w *world) apply(op Op) (r resolved, v *simcore.Violation) {
 		r.num = n
 		r.node = t.nodeOf(h.Hash())
 		note("commit state of #%d", n)
-		if v = guard("TrieDB.Commit", func() *simcore.Violation {
-			return errViol("commit-failed", bc.TrieDB().Commit(h.Root, false))
-		}); v != nil {
+		// the commit is a stimulus, not part of the property: an error (e.g. "is disk
+		// layer" in the path scheme) is recorded, not judged
+		var cerr error
+		if v = guard("TrieDB.Commit", func() *simcore.Violation { cerr = bc.TrieDB().Commit(h.Root, false); return nil }); v != nil {
 			return r, v
 		}
-		w.res.Probe("explicit-state-commit")
+		r.desc += " -> " + errClass(cerr)
+		if cerr == nil {
+			w.res.Probe("explicit-state-commit")
+		}
 	case "snapcap":
 		snaps := bc.Snapshots()
 		head := bc.CurrentBlock()
@@ -276,12 +297,14 @@ func (w *world) apply(op Op) (r resolved, v *simcore.Violation) {
 			break
 		}
 		note("snapshot cap at head #%d", head.Number)
-		if v = guard("Snapshots.Cap", func() *simcore.Violation {
-			return errViol("snapcap-failed", snaps.Cap(head.Root, 0))
-		}); v != nil {
+		var cerr error
+		if v = guard("Snapshots.Cap", func() *simcore.Violation { cerr = snaps.Cap(head.Root, 0); return nil }); v != nil {
 			return r, v
 		}
-		w.res.Probe("snapshot-flattened")
+		r.desc += " -> " + errClass(cerr)
+		if cerr == nil {
+			w.res.Probe("snapshot-flattened")
+		}
 	case "reopen":
 		note("clean stop + reopen")
 		if v = guard("Stop", func() *simcore.Violation { w.stopChain(); return nil }); v != nil {
@@ -310,6 +333,17 @@ func (w *world) apply(op Op) (r resolved, v *simcore.Violation) {
 	w.quiesce()
 	evs := w.col.take()
 	if v = guard("invariants", func() *simcore.Violation { return w.invariants(evs, headBefore, rebase) }); v != nil {
+		// findings on the unchanged tree get their own keys (see NOTES.md)
+		switch {
+		case v.Oracle == "head-state-missing" && op.Kind == "insert" && len(r.blocks) > 0 && preKnown[r.blocks[0]] && w.knobs.Scheme == rawdb.PathScheme && w.bc.CurrentBlock().Hash() == headBefore:
+			v.Key = "head-state-missing:reinsert-known-canonical-block-rolls-state-back"
+		case v.Oracle == "logs-never-announced" && op.Kind == "insert" && subset(w.missLogBlocks, preKnown):
+			// every unannounced log belongs to a block that was stored before the call
+			v.Key = "logs-never-announced:known-block-made-head-again"
+		case v.Oracle == "added-log-twice" && w.dupLogBlock != -2 && t.isAncestorOrSelf(w.dupLogBlock, t.nodeOf(headBefore)):
+			// the re-announced block was canonical before the operation and still is
+			v.Key = "added-log-twice:already-canonical-block-made-head-again"
+		}
 		return r, v
 	}
 	r.endSeq = w.clock.Now()
@@ -344,6 +378,15 @@ func (w *world) apply(op Op) (r resolved, v *simcore.Violation) {
 	w.opsDone++
 	tracef("  op %-8s %s | head #%d node %d, header #%d, events %d", op.Kind, r.desc, cur.Number, w.headNode, w.bc.CurrentHeader().Number, len(evs))
 	return r, nil
+}
+
+func subset(xs []int, set map[int]bool) bool {
+	for _, x := range xs {
+		if !set[x] {
+			return false
+		}
+	}
+	return len(xs) > 0
 }
 
 func errViol(oracle string, err error) *simcore.Violation {
